@@ -308,6 +308,7 @@ func runRetryCase(c retryCase, long time.Duration) retryResult {
 	}
 	lg := &retryLog{ch: make(chan struct{}, 1)}
 	opts := []quartz.SchedulerOpt{quartz.WithLogger(lg), quartz.WithOutdatedThreshold(time.Minute)}
+	opts = append(opts, mfRetryOpts()...) // QH_MISFIRED_CHAN: the same scenarios with a MisfiredChan that nobody reads (misfire.go)
 	switch c.mode {
 	case 0:
 		opts = append(opts, quartz.WithBlockingExecution())
@@ -600,6 +601,7 @@ func (j *blockingFailer) Description() string { return "blocking-failer" }
 func retryCancelInAttempt(mode int, interval time.Duration, blockAt int, via string) []string {
 	desc := fmt.Sprintf("mode=%s MaxRetries=6 RetryInterval=%v every attempt fails; %s while attempt %d is running", retryModes[mode], interval, via, blockAt)
 	opts := []quartz.SchedulerOpt{quartz.WithOutdatedThreshold(time.Minute)}
+	opts = append(opts, mfRetryOpts()...) // QH_MISFIRED_CHAN: the same scenarios with a MisfiredChan that nobody reads (misfire.go)
 	switch mode {
 	case 0:
 		opts = append(opts, quartz.WithBlockingExecution())
@@ -895,6 +897,7 @@ func retryAfterPauseResume(mode int, history string) []string {
 	const interval = 25 * time.Millisecond
 	desc := fmt.Sprintf("mode=%s MaxRetries=2 RetryInterval=%v every attempt fails; history before the execution: %s", retryModes[mode], interval, history)
 	opts := []quartz.SchedulerOpt{quartz.WithOutdatedThreshold(time.Minute)}
+	opts = append(opts, mfRetryOpts()...) // QH_MISFIRED_CHAN: the same scenarios with a MisfiredChan that nobody reads (misfire.go)
 	switch mode {
 	case 0:
 		opts = append(opts, quartz.WithBlockingExecution())
@@ -995,6 +998,7 @@ func (j *fnErrJob) Description() string           { return "fnerr" }
 // panics (clean-up code that fails once the context is gone). The panic must be contained like any other.
 func retryCanaryPanicAfterCancel(mode int, via string) {
 	opts := []quartz.SchedulerOpt{quartz.WithOutdatedThreshold(time.Minute)}
+	opts = append(opts, mfRetryOpts()...) // QH_MISFIRED_CHAN: the same scenarios with a MisfiredChan that nobody reads (misfire.go)
 	switch mode {
 	case 0:
 		opts = append(opts, quartz.WithBlockingExecution())
